@@ -60,7 +60,7 @@ theorem spec_agrees_emptySq (l : Spec.LSt) (s : St) (hS : l.S = s.S) (i : Nat) :
   cases aget s.S i <;> simp only [Option.map_some, hS]
 
 theorem spec_mkFun_agrees (l : Spec.LSt) (s : St) (hS : l.S = s.S) (hT : l.T = s.T) (hG : l.G = s.G)
-    (hK : l.K = s.K) (hN : l.next = s.next) (b : Bool) (spec : FSpec) :
+    (hK : l.K = s.K) (hN : l.next = s.next) (hO : l.ownedG = s.ownedG) (b : Bool) (spec : FSpec) :
     (match Spec.mkFun l b spec with
      | .error e => Except.error e
      | .ok (fn, l') => Except.ok (fn, l'.S, l'.T, l'.G)) =
@@ -92,11 +92,26 @@ theorem spec_mkFun_agrees (l : Spec.LSt) (s : St) (hS : l.S = s.S) (hT : l.T = s
     simp only [Spec.mkFun, mkFun, hG]
     cases aget s.G g with
     | none => rfl
-    | some h => cases hb : (h.fl.isVoid != b) <;> simp only [hb, Bool.false_eq_true, if_false, if_true, hS, hT]
+    | some h =>
+      cases hb : (h.fl.isVoid != b) <;> simp only [hb, Bool.false_eq_true, if_false, if_true, hS, hT, hO]
+      by_cases h2 : (!h.fl.isTrackable && s.ownedG.any fun p => decide (p.snd = g)) = true
+      · simp only [h2, if_true]
+      · simp only [h2, if_false, Bool.false_eq_true]
   | ownT fid t => simp only [Spec.mkFun, mkFun, hT]; cases aget s.T t <;> simp only [hS, hT, hG]
   | ownK fid k =>
     simp only [Spec.mkFun, mkFun, hK, Spec.LSt.fresh, St.fresh, hN]
     cases aget s.K k <;> simp only [hS, hT, hG]
+  | ownG fid g =>
+    simp only [Spec.mkFun, mkFun, hG, hO, Spec.LSt.fresh, St.fresh, hN]
+    cases aget s.G g with
+    | none => rfl
+    | some h =>
+      simp only []
+      by_cases h1 : (h.everFwd && !h.fl.isTrackable) = true
+      · simp only [h1, if_true]
+      · by_cases h2 : (s.ownedG.any fun p => decide (p.snd = g)) = true
+        · simp only [h1, h2, if_true, if_false, Bool.false_eq_true]
+        · simp only [h1, h2, if_false, Bool.false_eq_true, hS, hT]
   | bad => rfl
 
 theorem spec_specTaint_agrees (l : Spec.LSt) (s : St) (hS : l.S = s.S) (hG : l.G = s.G) (spec : FSpec) :
@@ -104,7 +119,7 @@ theorem spec_specTaint_agrees (l : Spec.LSt) (s : St) (hS : l.S = s.S) (hG : l.G
   cases spec <;> simp only [Spec.specTaint, specTaint, hS, hG] <;> rfl
 
 theorem spec_agrees_setS (l : Spec.LSt) (s : St) (hS : l.S = s.S) (hT : l.T = s.T) (hG : l.G = s.G)
-    (hK : l.K = s.K) (hN : l.next = s.next) (i : Nat) (spec : FSpec) :
+    (hK : l.K = s.K) (hN : l.next = s.next) (hO : l.ownedG = s.ownedG) (i : Nat) (spec : FSpec) :
     obsS (Spec.stepSimple l (.setS i spec)) = obsP (stepSimple s (.setS i spec)) := by
   simp only [Spec.stepSimple, stepSimple, hS, obsS, obsP, spec_specTaint_agrees l s hS hG]
   cases aget s.S i with
@@ -114,7 +129,7 @@ theorem spec_agrees_setS (l : Spec.LSt) (s : St) (hS : l.S = s.S) (hT : l.T = s.
     by_cases hin : d.incall > 0
     · simp only [hin, if_true, Option.map_some, hS]
     · simp only [hin, if_false]
-      have hm := spec_mkFun_agrees l s hS hT hG hK hN d.isVoid spec
+      have hm := spec_mkFun_agrees l s hS hT hG hK hN hO d.isVoid spec
       cases h1 : Spec.mkFun l d.isVoid spec with
       | error e1 =>
         cases h2 : mkFun s d.isVoid spec with
@@ -132,7 +147,7 @@ theorem spec_agrees_setS (l : Spec.LSt) (s : St) (hS : l.S = s.S) (hT : l.T = s.
           simp only [Option.map_some, hS']
 
 theorem spec_agrees_mkS (l : Spec.LSt) (s : St) (hS : l.S = s.S) (hT : l.T = s.T) (hG : l.G = s.G)
-    (hK : l.K = s.K) (hN : l.next = s.next) (i : Nat) (ty : String) (spec : FSpec) :
+    (hK : l.K = s.K) (hN : l.next = s.next) (hO : l.ownedG = s.ownedG) (i : Nat) (ty : String) (spec : FSpec) :
     obsS (Spec.stepSimple l (.mkS i ty spec)) = obsP (stepSimple s (.mkS i ty spec)) := by
   simp only [Spec.stepSimple, stepSimple, hS, obsS, obsP, spec_specTaint_agrees l s hS hG]
   cases aget s.S i with
@@ -142,7 +157,7 @@ theorem spec_agrees_mkS (l : Spec.LSt) (s : St) (hS : l.S = s.S) (hT : l.T = s.T
     by_cases hty : (ty ≠ "I" && ty ≠ "V") = true
     · simp only [hty, if_true, Option.map_some, hS]
     · simp only [hty]
-      have hm := spec_mkFun_agrees l s hS hT hG hK hN (ty = "V") spec
+      have hm := spec_mkFun_agrees l s hS hT hG hK hN hO (ty = "V") spec
       cases h1 : Spec.mkFun l (ty = "V") spec with
       | error e1 =>
         cases h2 : mkFun s (ty = "V") spec with
@@ -160,19 +175,19 @@ theorem spec_agrees_mkS (l : Spec.LSt) (s : St) (hS : l.S = s.S) (hT : l.T = s.T
           simp only [Bool.false_eq_true, if_false, Option.map_some, hS']
 
 /-- on every operation on slot variables the specification `S` and the mechanism model `P`, started from
-    states with the same slot variables, trackables, signal handles, scoped connections and allocator, give the same answer and the same
+    states with the same slot variables, trackables, signal handles, scoped connections, functor-owned signal objects and allocator, give the same answer and the same
     slot variables -/
 theorem spec_agrees_slotOp (l : Spec.LSt) (s : St) (hS : l.S = s.S) (hT : l.T = s.T) (hG : l.G = s.G)
-    (hK : l.K = s.K) (hN : l.next = s.next) (op : Op) (ws : List Nat) (hw : slotWrites op = some ws) :
+    (hK : l.K = s.K) (hN : l.next = s.next) (hO : l.ownedG = s.ownedG) (op : Op) (ws : List Nat) (hw : slotWrites op = some ws) :
     obsS (Spec.stepSimple l op) = obsP (stepSimple s op) := by
   cases op <;> simp only [slotWrites, Option.some.injEq] at hw <;> try cases hw
-  · exact spec_agrees_mkS l s hS hT hG hK hN _ _ _
+  · exact spec_agrees_mkS l s hS hT hG hK hN hO _ _ _
   · exact spec_agrees_mkS0 l s hS _ _
   · exact spec_agrees_cpS l s hS _ _
   · exact spec_agrees_mvS l s hS _ _
   · exact spec_agrees_asgS l s hS _ _
   · exact spec_agrees_masgS l s hS _ _
-  · exact spec_agrees_setS l s hS hT hG hK hN _ _
+  · exact spec_agrees_setS l s hS hT hG hK hN hO _ _
   · exact spec_agrees_delS l s hS _
   · exact spec_agrees_discS l s hS _
   · exact spec_agrees_blockS l s hS _ _
